@@ -23,7 +23,7 @@ pub fn parse_log(text: &str) -> Log {
         if parts.len() != 3 { log.problems.push(format!("malformed record `{}`", l)); continue }
         match parts[0].parse::<u128>() {
             Ok(ts) => { last_ts = Some(ts); }
-            Err(_) => log.problems.push(format!("timestamp `{}` is not a decimal integer", parts[0])),
+            Err(_) => if parts[0].parse::<f64>().map_or(true, |x| !x.is_finite() || x < 0.0) { log.problems.push(format!("timestamp `{}` is not numeric", parts[0])) },
         }
         let heap = match parts[2].parse::<u64>() { Ok(h) => h, Err(_) => { log.problems.push(format!("heap size `{}` is not a number", parts[2])); continue } };
         if first {
